@@ -29,7 +29,14 @@ package keeper
 
 // ---- C09: the execution head advances only by valid child blocks ----------------------------------------
 
+// A-el-ids (assumption about the execution layer, needed by C05): the withdrawal requests decoded from a block's request
+// list carry ids the bitcoin module has not seen yet, pairwise different (the bridge contract numbers them consecutively).
+//@ smt (declare-fun decodeRequests_bridge (Slc_Bytes) T_types_goattypes_BridgeRequests)
+//@ smt (define-fun wd_ids_fresh ((b T_types_goattypes_BridgeRequests) (dom (Array Int Bool))) Bool (forall ((j Int)) (=> (and (<= 0 j) (< j (len_Slc_Opt_T_types_goattypes_WithdrawalRequest (T_types_goattypes_BridgeRequests.Withdraws b)))) (not (select dom (T_types_goattypes_WithdrawalRequest.Id (val_Opt_T_types_goattypes_WithdrawalRequest (select (arr_Slc_Opt_T_types_goattypes_WithdrawalRequest (T_types_goattypes_BridgeRequests.Withdraws b)) (+ (off_Slc_Opt_T_types_goattypes_WithdrawalRequest (T_types_goattypes_BridgeRequests.Withdraws b)) j)))))))))
+//@ smt (define-fun wd_ids_distinct ((b T_types_goattypes_BridgeRequests)) Bool (forall ((i Int) (j Int)) (=> (and (<= 0 i) (< i j) (< j (len_Slc_Opt_T_types_goattypes_WithdrawalRequest (T_types_goattypes_BridgeRequests.Withdraws b)))) (not (= (T_types_goattypes_WithdrawalRequest.Id (val_Opt_T_types_goattypes_WithdrawalRequest (select (arr_Slc_Opt_T_types_goattypes_WithdrawalRequest (T_types_goattypes_BridgeRequests.Withdraws b)) (+ (off_Slc_Opt_T_types_goattypes_WithdrawalRequest (T_types_goattypes_BridgeRequests.Withdraws b)) i)))) (T_types_goattypes_WithdrawalRequest.Id (val_Opt_T_types_goattypes_WithdrawalRequest (select (arr_Slc_Opt_T_types_goattypes_WithdrawalRequest (T_types_goattypes_BridgeRequests.Withdraws b)) (+ (off_Slc_Opt_T_types_goattypes_WithdrawalRequest (T_types_goattypes_BridgeRequests.Withdraws b)) j)))))))))
+
 //@ func (msgServer).NewEthBlock
+//@ requires el_ids: wd_ids_fresh(decodeRequests_bridge(req.Payload.Requests), mapdom(st.bitcoin.Withdrawals)) && wd_ids_distinct(decodeRequests_bridge(req.Payload.Requests))
 //@ requires counters: st.bitcoin.EthTxNonce < 9223372036854775808 && st.locking.EthTxNonce < 9223372036854775808
 //@ property C09 C08
 //@ requires inv20: st.bitcoin.Params.DepositTaxRate < 10000 && st.bitcoin.Params.MinDepositAmount >= 1000 && st.bitcoin.Params.ConfirmationNumber >= 1
